@@ -20,7 +20,7 @@ PROFILES = {
 }
 
 
-def gen_cases(chk, profile, nobj, thorough=False):
+def gen_cases(chk, profile, nobj, thorough=False, wd=None, tag=""):
     classes, ptab, _, _, mtq, mtt = PROFILES[profile]
     mt = mtt if thorough else mtq
     mod, cfg = inst.instance(
@@ -28,12 +28,13 @@ def gen_cases(chk, profile, nobj, thorough=False):
         dict(MaxObjs=nobj, MaxTuple=mt, GenClasses=set(classes), Origins={0, 1}, PropAtoms="@op:PA"),
         ops=[inst.prop_atoms_def("PA", ptab, {0})],
         invariants=["EmitInv", "ExactMatches", "AllWellFormed", "MultiFirst"])
-    (chk.wd / "I_Pattern.tla").write_text(mod)
-    r = tlc.run(chk.wd, "I_Pattern", cfg, workers=core.NPROC, timeout=3000)
-    tlc.require_clean(r, f"Gen_Pattern/{profile}")
-    chk.note_tlc(f"Gen_Pattern/{profile}/objs={nobj}", r, "mc+gen")
+    wd = wd or chk.wd
+    (wd / "I_Pattern.tla").write_text(mod)
+    r = tlc.run(wd, "I_Pattern", cfg, workers=core.NPROC, timeout=3000)
+    tlc.require_clean(r, f"Gen_Pattern/{profile}{tag}")
+    chk.note_tlc(f"Gen_Pattern/{profile}{tag}/objs={nobj}", r, "mc+gen")
     if r.violated:
-        chk.tlc_violation(f"Gen_Pattern-{profile}", r)
+        chk.tlc_violation(f"Gen_Pattern-{profile}{tag}", r)
     return r.json_raw
 
 
@@ -78,7 +79,7 @@ def check_case(W: World, case: dict) -> list:
     node = objs[case["root"]]
 
     def bad(clause, detail, sub):
-        out.append((clause, detail, {"m": "pattern", "h": h, "root": case["root"], **sub}))
+        out.append((clause, detail, {"m": "pattern", "h": h, "root": case["root"], "poolset": W.poolset, **sub}))
 
     twin_objs = W.build(h) if case.get("pats") else None
     pats = case.get("pats", [])
@@ -151,7 +152,7 @@ def check_case(W: World, case: dict) -> list:
 
 def _replay(chunk, arg):
     core.use_repo()
-    W = World(zoo.BASIC, "plain")
+    W = World(zoo.BASIC, arg.get("poolset", "plain"))
     viol, n, nontriv = [], 0, set()
     for raw in chunk:
         case = tlc.decode(raw) if isinstance(raw, str) else raw
@@ -354,6 +355,27 @@ def run(chk: core.Check):
         for clause, detail, case in viol:
             chk.add(core.Violation(clause, case, detail))
     chk.replayed += len(allraw)
+    # the same generator over the pool set `ws`, whose strings differ only in the length of a run of blanks: the exact
+    # regex and its stretched twin (Gen_Pattern!Stretch) are compiled in one process and must keep their own verdicts
+    wsd = chk.wd / "ws"
+    wsd.mkdir(exist_ok=True)
+    tlc.prepare(wsd, {"Zoo.tla": zoo.render_tla(zoo.BASIC, poolset="ws")})
+    wsraw = gen_cases(chk, "props", PROFILES["props"][2], wd=wsd, tag="/ws")
+    chk.bounds["props/ws"] = {"MaxObjs": PROFILES["props"][2], "MaxTuple": 1, "classes": PROFILES["props"][0], "poolset": "ws"}
+    nstretch = 0
+    for raw in wsraw:
+        c = tlc.decode(raw)
+        nstretch += sum(1 for pc in c["pats"] for fl in pc["p"]["fields"]
+                        if fl["spec"]["t"] == "re" and fl["spec"]["toks"].count(" ") >= 4)
+    if wsraw and not nstretch:
+        raise tlc.MachineryError("Gen_Pattern over the pool set ws produced no stretched regex")
+    chk.bounds["props/ws"]["stretched_regexes"] = nstretch
+    for viol, n, nontriv in core.parallel(_replay, wsraw, {"poolset": "ws"}, chunk=20):
+        chk.evaluations += n
+        chk.nontrivial |= nontriv
+        for clause, detail, case in viol:
+            chk.add(core.Violation(clause, case, detail))
+    chk.replayed += len(wsraw)
     chk.exhaustive = True
     rng = random.Random(chk.seed + 3)
     seeds = [rng.randrange(1 << 30) for _ in range(150 if quick else 1500)]
@@ -381,7 +403,7 @@ def run(chk: core.Check):
 def replay(chk, data):
     core.use_repo()
     case = data["case"]
-    W = World(zoo.BASIC, "plain")
+    W = World(zoo.BASIC, case.get("poolset", "plain"))
     if case["m"] == "pattern":
         for clause, detail, c in check_case(W, case):
             chk.add(core.Violation(clause, c, detail))
